@@ -1,4 +1,6 @@
 import NanoVerif.Proofs.DatasetHistory
+import NanoVerif.Proofs.DatasetGradientViews
+import NanoVerif.Proofs.DatasetGenCustom
 /-!
   C08 — all dataset views agree with the stored feature values, including missing ones.
 
@@ -12,8 +14,10 @@ import NanoVerif.Proofs.DatasetHistory
 
   Hypotheses: `Storage.WF` / `Dataset.WF` (established by `resize`, preserved by `set`, `add` and every history operation:
   `wf_reachable`, `run_keeps`), `ClassValuesOk` (labels and hits are non-negative: `classValuesOk_resize`,
-  `classValuesOk_set`). No theorem is `_partial`. Outside the theorems (correspondence / oracle only): the gradient
-  generator, the batching of the flatten / targets iterators, binary64 conversions of the stored values.
+  `classValuesOk_set`), and — for the statements that go through `dataset_t::select` — `Dataset.NonDegenerate` (no gradient
+  feature derived from a 3x3 image: the open finding `gradient-1x1-select-unwritten`, characterised by `selectUnwritten_iff`).
+  No theorem is `_partial`. Outside the theorems (correspondence / oracle only): the batching of the flatten / targets
+  iterators, binary64 conversions of the stored values and binary64 rounding inside the image kernels.
 -/
 namespace NanoVerif.Dataset
 open NanoVerif.Tensor NanoVerif.Mask
@@ -98,7 +102,8 @@ variable {α : Type} [Scalar α]
     generator lists, for every position of the sample list (any order, repetitions allowed), the stored value of the original
     feature at that sample, missing values as −1 / NaN. -/
 theorem identity_eq_stored (st : Storage) (g : Gen) (i : Nat) (m : FMap) (samples : List Nat)
-    (hm : g.mapping[i]? = some m) (hk : g.kind ≠ .product) (hflag : g.infos.getD i 0 = 0) :
+    (hm : g.mapping[i]? = some m) (hk : g.kind ≠ .product) (hk' : ∀ k, g.kind ≠ .gradient k)
+    (hk'' : ∀ c, g.kind ≠ .custom c) (hflag : g.infos.getD i 0 = 0) :
     g.select (α := α) st i samples =
       some (viewOf g.kind m (samples.map (fun s => st.stored (st.inputIndex m.orig) s))) := by
   have h1 := shuffledAll_of_flag0 g i hflag
@@ -190,7 +195,8 @@ theorem targets_spec (ds : Dataset) (samples : List Int) (ss : List Nat) (hs : d
     and any (not cleared) buffer of the right shape, `flatten` returns, side by side in feature order, `encodeView` of what
     `select` returns for each feature — one-hot ±1 with `classes − 1` columns, `2·hit − 1`, identity, row-major, NaN for
     missing — whatever the drop / shuffle flags; and every `select` involved succeeds. -/
-theorem flatten_eq_encode_select (ds : Dataset) (hwf : ds.WF) (hcls : ClassValuesOk ds.st) (samples : List Int)
+theorem flatten_eq_encode_select (ds : Dataset) (hwf : ds.WF) (hnd : ds.NonDegenerate) (hcls : ClassValuesOk ds.st)
+    (samples : List Int)
     (ss : List Nat) (hs : ds.checkSamples samples = some ss) (buf0 : List (List α)) (hlen : buf0.length = ss.length)
     (hrows : ∀ r ∈ buf0, r.length = ds.columns) :
     ds.flattenInto samples buf0 = some (hcatRows ss.length
@@ -207,6 +213,7 @@ theorem flatten_eq_encode_select (ds : Dataset) (hwf : ds.WF) (hcls : ClassValue
     have hfm : ds.featMap[f]? = some ((ds.featMap[f]'hf').1, (ds.featMap[f]'hf').2) := by
       rw [List.getElem?_eq_getElem hf']
     obtain ⟨g, desc, hg, hi, hfeat, hc, hsel⟩ := select_eq_gen (α := α) ds hwf samples ss hs f _ _ hfm
+      (fun g hg => hnd g (List.mem_of_getElem? hg))
     have hgwf := hwf.gens g (List.mem_of_getElem? hg)
     have hi' : (ds.featMap[f]'hf').2 < g.mapping.length := hi
     obtain ⟨v, hv, hseg⟩ := segments_eq_encode (α := α) ds.st hcls g hgwf _ _ (List.getElem?_eq_getElem hi') ss
@@ -251,7 +258,8 @@ theorem flatten_eq_encode_select (ds : Dataset) (hwf : ds.WF) (hcls : ClassValue
     that feature is read through the reported permutation, every other feature is untouched. -/
 theorem history_view (ds : Dataset) (hwf : ds.WF) (ops : List HOp) (samples : List Int) (ss : List Nat)
     (hs : ds.checkSamples samples = some ss) (f gi i : Nat) (g : Gen) (m : FMap)
-    (hfm : ds.featMap[f]? = some (gi, i)) (hg : ds.gens[gi]? = some g) (hm : g.mapping[i]? = some m) :
+    (hfm : ds.featMap[f]? = some (gi, i)) (hg : ds.gens[gi]? = some g) (hm : g.mapping[i]? = some m)
+    (hnd : g.NonDegenerate) :
     (ds.run ops).select (α := α) samples (f : Int) (kindOverload g.kind) =
       some (specSelect ds.st g.kind m (absRun ds.features ds.flag ops f) ss) := by
   obtain ⟨hst, hwf', hfm', hgens, hflag⟩ := run_keeps ops ds hwf
@@ -262,6 +270,11 @@ theorem history_view (ds : Dataset) (hwf : ds.WF) (ops : List HOp) (samples : Li
     simpa [Dataset.checkSamples, hst] using hs
   obtain ⟨g'', desc, hg'', _, _, _, hsel⟩ :=
     select_eq_gen (α := α) (ds.run ops) hwf' samples ss hs' f gi i (by rw [hfm']; exact hfm)
+      (fun g₂ hg₂ => by
+        rw [hg'] at hg₂
+        cases hg₂
+        intro k hk2 m2 hm2
+        exact hnd k (by rw [← hk]; exact hk2) m2 (by rw [← hmap]; exact hm2))
   rw [hg'] at hg''
   cases hg''
   rw [← hk, hsel, select_by_flag (α := α) (ds.run ops).st g' i m (by rw [hmap]; exact hm) ss, hst]
@@ -356,6 +369,528 @@ theorem shuffled_reports (ds : Dataset) (hwf : ds.WF) (f : Nat) (hf : f < ds.fea
     simp only [List.mapM_cons, List.getElem?_eq_getElem hs0, Option.bind_eq_bind, Option.bind_some, this,
       List.map_cons, Option.pure_def, List.getD_eq_getElem?_getD, Option.getD_some]
 
+
+/-! ### the gradient generator (elemwise_gradient.h/.cpp, gradient.h) -/
+
+/-- **which features the gradient generator makes** (`do_fit`): from the structured input features it was given (all of them
+    for the default constructor), each one with at least 3 rows and 3 columns yields — in this order — for every input channel
+    and every mode 0..3 (gx, gy, magnitude, angle) one feature with the mapping row
+    `(original, classes, 1, rows − 2, cols − 2, channel, mode)`; a feature below 3x3 yields nothing. -/
+theorem gradient_dims_spec (st : Storage) (k : Kernel3) (l1 l2 : List Nat) (g : Gen)
+    (h : fit st (.gradient k) l1 l2 = some g) :
+    ∃ sel, selectFeatures st (kindAccepts (.gradient k)) l1 = some sel ∧ g.kind = .gradient k ∧
+      g.mapping = gradientMapping sel ∧
+      (∀ s ∈ sel, ∃ f, st.inputFeature s.orig = some f ∧ f.isStruct = true ∧
+        s.classes = f.classes ∧ s.d0 = f.d0 ∧ s.d1 = f.d1 ∧ s.d2 = f.d2) ∧
+      (∀ m, m ∈ g.mapping ↔ ∃ s ∈ sel, 3 ≤ s.d1 ∧ 3 ≤ s.d2 ∧ ∃ ch, ch < s.d0 ∧ ∃ ty, ty < 4 ∧
+        m = { s with d0 := 1, d1 := s.d1 - 2, d2 := s.d2 - 2, chan := ch, mode := ty }) := by
+  unfold fit at h
+  simp only [Option.bind_eq_bind, Option.pure_def] at h
+  cases h1 : selectFeatures st (kindAccepts (.gradient k)) l1 with
+  | none => rw [h1] at h; simp at h
+  | some sel =>
+    rw [h1] at h
+    simp only [Option.bind_some, Option.some.injEq] at h
+    subst h
+    refine ⟨sel, rfl, rfl, rfl, ?_, fun m => gradientMapping_mem sel m⟩
+    intro s hs
+    obtain ⟨f, hf, hacc, hd⟩ := selectFeatures_mem st _ l1 sel h1 s hs
+    exact ⟨f, hf, by simpa [kindAccepts] using hacc, hd⟩
+
+/-- **feature count**: `4 * channels` generated features per selected image of at least 3x3, none for the others -/
+theorem gradient_features_count (sel : List FMap) :
+    (gradientMapping sel).length = (sel.map (fun s => if 3 ≤ s.d1 ∧ 3 ≤ s.d2 then 4 * s.d0 else 0)).sum := by
+  induction sel with
+  | nil => rfl
+  | cons s sel ih =>
+    have hs : gradientMapping (s :: sel) = gradientMapping [s] ++ gradientMapping sel := by
+      simp [gradientMapping]
+    rw [hs, List.length_append, ih, List.map_cons, List.sum_cons]
+    congr 1
+    unfold gradientMapping
+    simp only [List.flatMap_cons, List.flatMap_nil, List.append_nil]
+    split
+    · rw [loop2_length, Nat.mul_comm]
+    · rfl
+
+/-- **descriptor and column bookkeeping of a gradient feature**: named `<kernel>::<gx|gy|gg|theta>(<source>[channel::<c>])`,
+    a `float64` feature of dims `(1, rows − 2, cols − 2)` without labels; the columns `update()` reserves for it are the
+    `(rows − 2) * (cols − 2)` columns its `flatten` writes; it is described as a *scalar* feature exactly when the source image
+    is 3x3 (then `dataset_t::select` routes it to the scalar overload, which the generator does not implement: the open
+    finding), as a structured one otherwise. -/
+theorem gradient_descriptor_spec (st : Storage) (g : Gen) (hg : g.WF st) (k : Kernel3) (hk : g.kind = .gradient k)
+    (i : Nat) (m : FMap) (hm : g.mapping[i]? = some m) :
+    ∃ f desc, st.inputFeature m.orig = some f ∧ f.isStruct = true ∧ 3 ≤ f.d1 ∧ 3 ≤ f.d2 ∧ m.chan < f.d0 ∧ m.mode < 4 ∧
+      g.feature st i = some desc ∧
+      desc = ⟨k.name ++ gradModeName m.mode ++ "(" ++ f.name ++ "[channel::" ++ toString m.chan ++ "])", .float64,
+        1, f.d1 - 2, f.d2 - 2, 0⟩ ∧
+      g.colsize i = (f.d1 - 2) * (f.d2 - 2) ∧ featureColumns desc = g.colsize i ∧
+      (desc.isScalar = true ↔ (f.d1 = 3 ∧ f.d2 = 3)) ∧ (desc.isStruct = true ↔ ¬ (f.d1 = 3 ∧ f.d2 = 3)) := by
+  obtain ⟨f, hf, hacc, hdesc, _⟩ := hg.rows i m hm
+  rw [hk] at hacc hdesc
+  have hdeg := gradient_degenerate_iff k m f hdesc
+  obtain ⟨_, h0, h1, h2, hch, hmode, h3, h4⟩ := hdesc
+  have e1 : m.d1 = f.d1 - 2 := by omega
+  have e2 : m.d2 = f.d2 - 2 := by omega
+  refine ⟨f, _, hf, by simpa [kindAccepts] using hacc, by omega, by omega, hch, hmode, ?_, rfl, ?_, ?_, ?_, ?_⟩
+  · simp [Gen.feature, hm, hk, hf, h0, e1, e2]
+  · rw [← e1, ← e2]
+    simp [Gen.colsize, hm, hk]
+  · rw [← e1, ← e2]
+    simp [Gen.colsize, hm, hk, featureColumns, Feature.dimSize]
+  · rw [← e1, ← e2]
+    simp only [Feature.isScalar, Feature.isClass, Feature.dimSize, Bool.and_eq_true, Bool.not_eq_true',
+      Bool.or_eq_false_iff, decide_eq_false_iff_not, beq_iff_eq, Nat.one_mul]
+    constructor
+    · rintro ⟨_, h⟩
+      exact Classical.not_not.1 (fun hn => by have := hdeg.2 hn; omega)
+    · intro h
+      refine ⟨⟨by simp, by simp⟩, ?_⟩
+      have : ¬ (1 < m.d1 * m.d2) := fun hlt => hdeg.1 hlt h
+      have : 1 ≤ m.d1 * m.d2 := Nat.mul_le_mul h3 h4
+      omega
+  · rw [← e1, ← e2]
+    simp only [Feature.isStruct, Feature.isClass, Feature.dimSize, Bool.and_eq_true, Bool.not_eq_true',
+      Bool.or_eq_false_iff, decide_eq_false_iff_not, decide_eq_true_eq, Nat.one_mul]
+    constructor
+    · rintro ⟨_, h⟩
+      exact hdeg.1 h
+    · intro h
+      exact ⟨⟨by simp, by simp⟩, hdeg.2 h⟩
+
+section
+variable {α : Type} [Scalar α]
+
+/-- **every output pixel is the kernel sum over its 3x3 neighbourhood**: for a mapping row of a fitted gradient generator
+    (source feature `f`, channel `m.chan`, mode `m.mode`) and a stored sample `v` of `d0 * d1 * d2` values, `process` writes
+    `(rows − 2) * (cols − 2)` values; the one at the row-major position `index [rows − 2, cols − 2] [r, c]` is
+    `gradMode mode gx gy` with `gx = k0·(P(r,c+2) − P(r,c)) + k1·(P(r+1,c+2) − P(r+1,c)) + k2·(P(r+2,c+2) − P(r+2,c))` and
+    `gy = k0·(P(r+2,c) − P(r,c)) + k1·(P(r+2,c+1) − P(r,c+1)) + k2·(P(r+2,c+2) − P(r,c+2))` (`gxAt`, `gyAt`), where
+    `P(i,j)` is the value at offset `index [d0, d1, d2] [channel, i, j]` of the sample (C16 addressing); all nine offsets of
+    the neighbourhood are inside the sample's buffer. For every image size, channel, kernel and mode. -/
+theorem gradient_pixel_spec (k : Kernel3) (f : Feature) (m : FMap) (v : List Int)
+    (hdesc : rowDescribes (.gradient k) m f) (hlen : v.length = f.d0 * f.d1 * f.d2)
+    (r c : Nat) (hr : r < m.d1) (hc : c < m.d2) :
+    (encGradient (α := α) k f m (some v)).length = m.d1 * m.d2 ∧
+    (encGradient (α := α) k f m (some v))[index [m.d1, m.d2] [r, c]]? = some (gradientAt k f m v r c) ∧
+    gradientAt (α := α) k f m v r c =
+      gradMode m.mode (gxAt (makeKernel k) (srcPixel f v m.chan) r c) (gyAt (makeKernel k) (srcPixel f v m.chan) r c) ∧
+    (∀ i j, i ≤ 2 → j ≤ 2 → index [f.d0, f.d1, f.d2] [m.chan, r + i, c + j] < v.length) := by
+  have hd := hdesc
+  obtain ⟨_, _, h1, h2, hch, _⟩ := hd
+  refine ⟨encGradient_length k f m _ hdesc, ?_, rfl, ?_⟩
+  · rw [encGradient_some k f m v hdesc]
+    have hidx : index [m.d1, m.d2] [r, c] = r * m.d2 + c := by simp [index, size]
+    rw [hidx]
+    exact loop2_getElem? m.d1 m.d2 _ r c hr hc
+  · intro i j hi hj
+    rw [hlen]
+    exact index3_lt f.d0 f.d1 f.d2 m.chan (r + i) (c + j) hch (by omega) (by omega)
+
+/-- **kernels as coded** (`make_kernel3x3`): the three coefficients are `a/d, b/d, c/d` with integer numerators that are
+    symmetric (`a = c`) and sum to the denominator (the smoothing weights are normalised); the vertical gradient is the
+    horizontal gradient of the transposed image at the transposed position (the `gy` mask is the transpose of the `gx`
+    mask), for any kernel coefficients and any image. -/
+theorem gradient_kernel_spec (k : Kernel3) (kk : α × α × α) (P : Nat → Nat → α) (r c : Nat) :
+    (makeKernel (α := α) k =
+      (Scalar.div (Scalar.ofInt k.nums.1) (Scalar.ofInt k.den), Scalar.div (Scalar.ofInt k.nums.2.1) (Scalar.ofInt k.den),
+       Scalar.div (Scalar.ofInt k.nums.2.2) (Scalar.ofInt k.den))) ∧
+    k.nums.1 = k.nums.2.2 ∧ k.nums.1 + k.nums.2.1 + k.nums.2.2 = k.den ∧ 0 < k.den ∧
+    gyAt kk P r c = gxAt kk (fun i j => P j i) c r := by
+  refine ⟨rfl, ?_, ?_, ?_, rfl⟩ <;> cases k <;> decide
+
+/-- **views of a gradient feature** for ANY flag state of the generator: `select` (structured overload) returns, per position
+    of the sample list, the gradient map of the stored image (`gradientValue`: `gradientOf` of a given sample — see
+    `gradient_pixel_spec` —, NaN everywhere for a missing one), all NaN when the feature is dropped, read through the
+    permutation when it is shuffled; the block `flatten` writes is the same rows, row-major, `(rows − 2) * (cols − 2)` columns. -/
+theorem gradient_select_spec (st : Storage) (g : Gen) (hg : g.WF st) (k : Kernel3) (hk : g.kind = .gradient k)
+    (i : Nat) (m : FMap) (hm : g.mapping[i]? = some m) (ss : List Nat) :
+    ∃ src, st.inputFeature m.orig = some src ∧ rowDescribes (.gradient k) m src ∧
+      g.select (α := α) st i ss = some (.struct 1 m.d1 m.d2 (gradientSpecRows st k src m (g.flagOf i) ss)) ∧
+      g.segments (α := α) st i ss = gradientSpecRows st k src m (g.flagOf i) ss ∧
+      (∀ row ∈ gradientSpecRows (α := α) st k src m (g.flagOf i) ss, row.length = g.colsize i) := by
+  obtain ⟨src, hf, _, hdesc, _⟩ := hg.rows i m hm
+  rw [hk] at hdesc
+  refine ⟨src, hf, hdesc, ?_, segments_gradient st g k hk i m hm src hf hdesc ss, ?_⟩
+  · rw [select_by_flag st g i m hm ss, hk, specSelect_gradient st k src m _ ss hf hdesc]
+  · intro row hrow
+    rw [gradientSpecRows_width st k src m _ ss row hrow]
+    simp [Gen.colsize, List.getD_eq_getElem?_getD, hm, hk]
+
+/-- **missing images**: a sample whose source image is missing yields NaN in every pixel of the per-feature view and in every
+    column of the flattened view (as coded: `dataset_t::flatten` writes NaN; only the flatten *iterator* turns NaN into 0
+    afterwards, dataset/stats.cpp), whatever the kernel, channel and mode; a given sample yields `gradientOf`. -/
+theorem gradient_missing_spec (k : Kernel3) (src : Feature) (m : FMap) (v : List Int) :
+    encGradient (α := α) k src m none = List.replicate (m.d1 * m.d2) Scalar.nan ∧
+    gradientValue (α := α) k src m none = List.replicate (m.d1 * m.d2) Scalar.nan ∧
+    gradientValue (α := α) k src m (some v) = gradientOf k src m v :=
+  ⟨rfl, rfl, rfl⟩
+
+/-- **histories through the gradient generator**: after ANY sequence of `drop / undrop / shuffle / unshuffle` calls on the
+    dataset, the structured view of a (non-degenerate) gradient feature is the gradient of the stored images transformed by
+    the feature's current flag (`absRun`): dropped ⇒ all NaN, shuffled ⇒ the images of the samples `p[s]`, otherwise the
+    images of the samples themselves; flags of other features do not matter. -/
+theorem gradient_history_view (ds : Dataset) (hwf : ds.WF) (ops : List HOp) (samples : List Int) (ss : List Nat)
+    (hs : ds.checkSamples samples = some ss) (f gi i : Nat) (g : Gen) (k : Kernel3) (m : FMap)
+    (hfm : ds.featMap[f]? = some (gi, i)) (hg : ds.gens[gi]? = some g) (hk : g.kind = .gradient k)
+    (hm : g.mapping[i]? = some m) (hnd : g.NonDegenerate) :
+    ∃ src, ds.st.inputFeature m.orig = some src ∧ rowDescribes (.gradient k) m src ∧
+      (ds.run ops).select (α := α) samples (f : Int) .struct =
+        some (.struct 1 m.d1 m.d2 (gradientSpecRows ds.st k src m (absRun ds.features ds.flag ops f) ss)) := by
+  obtain ⟨src, hf, _, hdesc, _⟩ := (hwf.gens g (List.mem_of_getElem? hg)).rows i m hm
+  rw [hk] at hdesc
+  refine ⟨src, hf, hdesc, ?_⟩
+  have h := history_view (α := α) ds hwf ops samples ss hs f gi i g m hfm hg hm hnd
+  rw [hk] at h
+  rw [← specSelect_gradient ds.st k src m _ ss hf hdesc]
+  exact h
+
+end
+
+/-- **the open finding, characterised**: `dataset_t::select` hands a buffer to an overload the owning generator does not
+    implement (descriptor check passed, `do_select` empty) exactly for the scalar overload on a gradient feature whose output
+    map is 1x1 — i.e. whose source image is 3x3 (`gradient_descriptor_spec`); for every other feature of a well-formed
+    dataset and every overload the call is either rejected or served. The flag says whether the feature is dropped (then the
+    buffer was filled with NaN before the dispatch; otherwise it comes back unwritten). -/
+theorem selectUnwritten_iff (ds : Dataset) (hwf : ds.WF) (f : Nat) (o : Overload) (d : Bool) :
+    ds.selectForeign f o = some d ↔
+      ∃ gi i g k m, ds.featMap[f]? = some (gi, i) ∧ ds.gens[gi]? = some g ∧ g.kind = .gradient k ∧
+        g.mapping[i]? = some m ∧ m.d1 = 1 ∧ m.d2 = 1 ∧ o = .scalar ∧ d = g.shouldDrop i := by
+  unfold Dataset.selectForeign
+  cases hfm : ds.featMap[f]? with
+  | none => simp
+  | some p =>
+    obtain ⟨gi, i⟩ := p
+    obtain ⟨_, g, hg, hi⟩ := featMapFrom_getElem? 0 ds.gens f gi i hfm
+    simp only [Nat.sub_zero] at hg
+    have hgwf := hwf.gens g (List.mem_of_getElem? hg)
+    obtain ⟨desc, hd, _⟩ := featureColumns_eq_colsize ds.st g hgwf i hi
+    have hfeat : ds.feature f = some desc := by simp [Dataset.feature, hfm, hg, hd]
+    have hi' : i < g.mapping.length := hi
+    have hm : g.mapping[i]? = some g.mapping[i] := List.getElem?_eq_getElem hi'
+    simp only [hg, hfeat]
+    constructor
+    · intro h
+      split at h
+      · rename_i hcond
+        simp only [Bool.and_eq_true, bne_iff_ne, ne_eq] at hcond
+        obtain ⟨hmatch, hne⟩ := hcond
+        cases h
+        by_cases hnd : g.NonDegenerate
+        · have := kindOverload_matches ds.st g hgwf hnd i desc hd
+          have := matches_unique _ _ desc hmatch this
+          rw [generated_eq_code, this] at hne
+          exact absurd rfl hne
+        · -- a degenerate gradient row exists; the descriptor of THIS row decides
+          cases hk : g.kind with
+          | gradient k =>
+            obtain ⟨src, desc', hsrc, _, _, _, _, _, hd', hdesc', _, _, hsc, hst⟩ :=
+              gradient_descriptor_spec ds.st g hgwf k hk i _ hm
+            rw [hd] at hd'
+            cases hd'
+            obtain ⟨src2, hsrc2, _, hrow, _⟩ := hgwf.rows i _ hm
+            rw [hk] at hrow
+            rw [hsrc] at hsrc2
+            cases hsrc2
+            by_cases h33 : src.d1 = 3 ∧ src.d2 = 3
+            · have hsc' := hsc.2 h33
+              have ho : o = .scalar := matches_unique _ _ desc hmatch (by simpa [Overload.matches] using hsc')
+              obtain ⟨_, _, r1, r2, _⟩ := hrow
+              exact ⟨gi, i, g, k, _, rfl, hg, hk, hm, by omega, by omega, ho, rfl⟩
+            · have hst' := hst.2 h33
+              have ho : o = .struct := matches_unique _ _ desc hmatch (by simpa [Overload.matches] using hst')
+              rw [hk, ho] at hne
+              exact absurd rfl hne
+          | sclassId | mclassId | scalarId | structId | product | custom _ =>
+            all_goals exact absurd (fun k' hk' => by rw [hk] at hk'; cases hk') hnd
+      · cases h
+    · rintro ⟨gi', i', g', k, m, hfm', hg', hk, hm', e1, e2, ho, hdd⟩
+      cases hfm'
+      rw [hg] at hg'
+      cases hg'
+      rw [hm] at hm'
+      cases hm'
+      obtain ⟨src, desc', hsrc, _, _, _, _, _, hd', _, _, _, hsc, _⟩ :=
+        gradient_descriptor_spec ds.st g hgwf k hk i _ hm
+      rw [hd] at hd'
+      cases hd'
+      obtain ⟨src2, hsrc2, _, hrow, _⟩ := hgwf.rows i _ hm
+      rw [hk] at hrow
+      rw [hsrc] at hsrc2
+      cases hsrc2
+      obtain ⟨_, _, r1, r2, _⟩ := hrow
+      have hsc' := hsc.2 ⟨by omega, by omega⟩
+      subst ho
+      have : (Overload.scalar.matches desc && g.kind.generated != Overload.scalar.code) = true := by
+        simp [Overload.matches, hsc', hk, GKind.generated, Overload.code]
+      rw [if_pos this, hdd]
+
+/-- **when the open finding cannot occur**: a fitted gradient generator has no degenerate (1x1) feature iff none of the
+    images it derives features from is exactly 3x3 -/
+theorem gradient_nondegenerate_iff (st : Storage) (g : Gen) (hg : g.WF st) (k : Kernel3) (hk : g.kind = .gradient k) :
+    g.NonDegenerate ↔
+      ∀ (i : Nat) (m : FMap) (src : Feature), g.mapping[i]? = some m → st.inputFeature m.orig = some src →
+        ¬ (src.d1 = 3 ∧ src.d2 = 3) := by
+  constructor
+  · intro h i m src hm hsrc
+    obtain ⟨f, hf, _, hdesc, _⟩ := hg.rows i m hm
+    rw [hk] at hdesc
+    rw [hsrc] at hf
+    cases hf
+    exact (gradient_degenerate_iff k m src hdesc).1 (h k hk m (List.mem_of_getElem? hm))
+  · intro h k' hk' m hmem
+    obtain ⟨i, hi, rfl⟩ := List.getElem_of_mem hmem
+    have hm : g.mapping[i]? = some g.mapping[i] := List.getElem?_eq_getElem hi
+    obtain ⟨f, hf, _, hdesc, _⟩ := hg.rows i _ hm
+    rw [hk] at hdesc
+    exact (gradient_degenerate_iff k _ f hdesc).2 (h i _ f hm hf)
+
+/-! ### non-vacuity of the gradient theorems: a concrete image dataset, evaluated with exact fractions -/
+
+/-- exact fractions `n / d` (not normalised; `d = 0` plays NaN): enough to evaluate the kernels exactly -/
+structure Frac where
+  n : Int
+  d : Int
+deriving DecidableEq, Repr
+
+instance fracScalar : Scalar Frac :=
+  ⟨fun n => ⟨n, 1⟩, ⟨0, 0⟩, fun a b => ⟨a.n * b.n, a.d * b.d⟩, fun a b => ⟨a.n * b.d - b.n * a.d, a.d * b.d⟩,
+   fun a b => ⟨a.n * b.d + b.n * a.d, a.d * b.d⟩, fun a b => ⟨a.n * b.d, a.d * b.n⟩, fun _ => ⟨0, 0⟩, fun _ _ => ⟨0, 0⟩⟩
+
+def Frac.same (a b : Frac) : Bool :=
+  (a.d == 0 && b.d == 0) || (a.d != 0 && b.d != 0 && a.n * b.d == b.n * a.d)
+
+def Frac.sameRows (x y : List (List Frac)) : Bool :=
+  x.length == y.length && (List.zipWith (fun r e => r.length == e.length && (List.zipWith Frac.same r e).all id) x y).all id
+
+/-- a 1-channel 3x4 image, a 2x5 one (below 3x3), a 2-channel 3x3 one -/
+def exGFeats : List Feature :=
+  [⟨"img", .int16, 1, 3, 4, 0⟩, ⟨"tiny", .int8, 1, 2, 5, 0⟩, ⟨"img33", .uint8, 2, 3, 3, 0⟩]
+
+def exGImage : List Int := [1, 2, 4, 7, 0, 3, 5, 9, 2, 2, 6, 8]
+
+/-- 2 samples; sample 1 has no `img` -/
+def exGWrites : List (Nat × Nat × List Int) :=
+  [(0, 0, exGImage), (0, 1, [1, 2, 3, 4, 5, 6, 7, 8, 9, 10]), (0, 2, [1, 2, 3, 4, 5, 6, 7, 8, 9, 9, 8, 7, 6, 5, 4, 3, 2, 1]),
+   (1, 2, [0, 0, 0, 0, 5, 0, 0, 0, 0, 1, 1, 1, 1, 1, 1, 1, 1, 1])]
+
+def exGStorage : Option Storage :=
+  exGWrites.foldlM (fun st w => st.set w.1 w.2.1 w.2.2) (resize 2 exGFeats 9)
+
+/-- sobel gradients of `img` and `tiny` (the latter yields nothing), then the structured features as they are -/
+def exGGens : List (GKind × List Nat × List Nat) := [(.gradient .sobel, [0, 1], []), (.structId, [], [])]
+
+def exGDataset : Option Dataset :=
+  exGStorage.bind (fun st => exGGens.foldlM (fun (ds : Dataset) k => ds.add k.1 k.2.1 k.2.2) ⟨st, []⟩)
+
+/-- the same with the prewitt gradients of the 3x3 image: the degenerate case -/
+def exGDataset33 : Option Dataset :=
+  exGStorage.bind (fun st => [(GKind.gradient .prewitt, [2], ([] : List Nat))].foldlM
+    (fun (ds : Dataset) k => ds.add k.1 k.2.1 k.2.2) ⟨st, []⟩)
+
+-- the hypotheses of `gradient_history_view` / `gradient_select_spec` / `flatten_eq_encode_select` hold for `exGDataset`:
+-- well-formed, no degenerate feature, feature 1 is row 1 of the gradient generator
+example : ∃ ds g m, exGDataset = some ds ∧ ds.WF ∧ ds.NonDegenerate ∧ ClassValuesOk ds.st ∧ ds.featMap[1]? = some (0, 1) ∧
+    ds.gens[0]? = some g ∧ g.kind = .gradient .sobel ∧ g.WF ds.st ∧ g.mapping[1]? = some m := by
+  obtain ⟨st, hst⟩ : ∃ st, exGStorage = some st := Option.isSome_iff_exists.1 (by decide)
+  obtain ⟨ds, hds⟩ : ∃ ds, exGDataset = some ds := Option.isSome_iff_exists.1 (by decide)
+  have h0 := resize_wf 2 exGFeats 9 (by decide)
+  obtain ⟨hwf, hcls, _⟩ := sets_wf exGWrites _ st h0 (classValuesOk_resize 2 exGFeats 9) hst (by decide)
+  have hadd : exGGens.foldlM (fun (ds : Dataset) k => ds.add k.1 k.2.1 k.2.2) ⟨st, []⟩ = some ds := by
+    simpa [exGDataset, hst] using hds
+  obtain ⟨h1, h2, _⟩ := adds_wf exGGens ⟨st, []⟩ ds ⟨hwf, by simp⟩ (by simp) hadd
+  have hnd : (exGDataset.map (fun ds => ds.gens.all Gen.nonDegenerateB)) = some true := by decide
+  have hfm : (exGDataset.map (fun ds => ds.featMap[1]?)) = some (some (0, 1)) := by decide
+  have hk : (exGDataset.map (fun ds => (ds.gens[0]?).map (fun g => (g.kind, g.mapping[1]?.isSome)))) =
+      some (some (.gradient .sobel, true)) := by decide
+  rw [hds] at hnd hfm hk
+  simp only [Option.map_some, Option.some.injEq] at hnd hfm hk
+  cases hg : ds.gens[0]? with
+  | none => rw [hg] at hk; simp at hk
+  | some g =>
+    rw [hg] at hk
+    simp only [Option.map_some, Option.some.injEq, Prod.mk.injEq] at hk
+    obtain ⟨m, hm⟩ := Option.isSome_iff_exists.1 hk.2
+    refine ⟨ds, g, m, hds, h1, ?_, by rw [h2]; exact hcls, hfm, hg, hk.1, h1.gens g (List.mem_of_getElem? hg), hm⟩
+    intro g' hg'
+    exact (nonDegenerateB_iff g').1 (List.all_eq_true.1 hnd g' hg')
+
+-- `gradient_dims_spec` / `gradient_features_count`: the 3x4 image yields 4 features of dims (1, 1, 2), the 2x5 image none;
+-- then the three structured features: 7 features, 4 * 2 + 12 + 10 + 18 = 48 columns
+example : (exGDataset.map (fun ds => (ds.features, ds.columns, ds.gens.map (·.mapping.length)))) = some (7, 48, [4, 3]) := by
+  decide
+example : (exGDataset.map (fun ds => ds.featureList.take 4)) =
+    some [⟨"sobel::gx(img[channel::0])", .float64, 1, 1, 2, 0⟩, ⟨"sobel::gy(img[channel::0])", .float64, 1, 1, 2, 0⟩,
+          ⟨"sobel::gg(img[channel::0])", .float64, 1, 1, 2, 0⟩, ⟨"sobel::theta(img[channel::0])", .float64, 1, 1, 2, 0⟩] := by
+  decide
+-- `gradient_pixel_spec`: its hypotheses hold for row `gx` of the image above, and the two output pixels are 17/4 and 23/4
+-- (gx), 3/4 and 5/4 (gy)
+example : rowDescribes (.gradient .sobel) ⟨0, 0, 1, 1, 2, 0, 0, 0⟩ ⟨"img", .int16, 1, 3, 4, 0⟩ ∧
+    exGImage.length = 1 * 3 * 4 := by
+  simp [rowDescribes, exGImage]
+example : (encGradient (α := Frac) .sobel ⟨"img", .int16, 1, 3, 4, 0⟩ ⟨0, 0, 1, 1, 2, 0, 0, 0⟩ (some exGImage)).length = 2 ∧
+    Frac.same (gradientAt .sobel ⟨"img", .int16, 1, 3, 4, 0⟩ ⟨0, 0, 1, 1, 2, 0, 0, 0⟩ exGImage 0 0) ⟨17, 4⟩ = true ∧
+    Frac.same (gradientAt .sobel ⟨"img", .int16, 1, 3, 4, 0⟩ ⟨0, 0, 1, 1, 2, 0, 0, 0⟩ exGImage 0 1) ⟨23, 4⟩ = true ∧
+    Frac.same (gradientAt .sobel ⟨"img", .int16, 1, 3, 4, 0⟩ ⟨0, 0, 1, 1, 2, 0, 0, 1⟩ exGImage 0 0) ⟨3, 4⟩ = true ∧
+    Frac.same (gradientAt .sobel ⟨"img", .int16, 1, 3, 4, 0⟩ ⟨0, 0, 1, 1, 2, 0, 0, 1⟩ exGImage 0 1) ⟨5, 4⟩ = true := by
+  decide
+-- `gradient_kernel_spec`: the coefficients of the three kernels, exactly
+example : Frac.same (makeKernel (α := Frac) .sobel).2.1 ⟨1, 2⟩ = true ∧ Frac.same (makeKernel (α := Frac) .scharr).1 ⟨3, 16⟩ = true ∧
+    Frac.same (makeKernel (α := Frac) .prewitt).2.2 ⟨1, 3⟩ = true := by decide
+-- `gradient_select_spec` / `gradient_missing_spec`: the flattened gradient columns of samples [0, 1, 0]: gx, gy exact, magnitude
+-- and angle have no exact value (NaN of `Frac`); sample 1 has no image: NaN everywhere
+example : (exGDataset.bind (fun ds => ds.flatten (α := Frac) [0, 1, 0] ⟨0, 0⟩)).map
+    (fun rows => Frac.sameRows (rows.map (·.take 8))
+      [[⟨17, 4⟩, ⟨23, 4⟩, ⟨3, 4⟩, ⟨5, 4⟩, ⟨0, 0⟩, ⟨0, 0⟩, ⟨0, 0⟩, ⟨0, 0⟩],
+       [⟨0, 0⟩, ⟨0, 0⟩, ⟨0, 0⟩, ⟨0, 0⟩, ⟨0, 0⟩, ⟨0, 0⟩, ⟨0, 0⟩, ⟨0, 0⟩],
+       [⟨17, 4⟩, ⟨23, 4⟩, ⟨3, 4⟩, ⟨5, 4⟩, ⟨0, 0⟩, ⟨0, 0⟩, ⟨0, 0⟩, ⟨0, 0⟩]]) = some true := by decide
+-- `gradient_history_view`: shuffling the gy feature by [1, 0] swaps its two rows, dropping gx makes it NaN, the other
+-- gradient features keep their views
+example : (exGDataset.bind (fun ds => ((ds.run [.shuffle 1 [1, 0], .drop 0]).flatten (α := Frac) [0, 1] ⟨0, 0⟩))).map
+    (fun rows => Frac.sameRows (rows.map (·.take 4))
+      [[⟨0, 0⟩, ⟨0, 0⟩, ⟨0, 0⟩, ⟨0, 0⟩], [⟨0, 0⟩, ⟨0, 0⟩, ⟨3, 4⟩, ⟨5, 4⟩]]) = some true := by decide
+-- `selectUnwritten_iff`: in the 3x3 stack every gradient feature is 1x1, described as scalar, and the scalar select is the
+-- unserved overload (not dropped: unwritten); in `exGDataset` no feature has one
+example : (exGDataset33.map (fun ds => (ds.features, (ds.feature 5).map (fun f => (f.name, f.isScalar)),
+    ds.selectForeign 5 .scalar, ds.selectForeign 5 .struct, (ds.step (.drop 5)).selectForeign 5 .scalar))) =
+    some (8, some ("prewitt::gy(img33[channel::1])", true), some false, none, some true) := by decide
+example : (exGDataset.map (fun ds => (List.range ds.features).all (fun f =>
+    [Overload.sclass, .mclass, .scalar, .struct].all (fun o => ds.selectForeign f o == none)))) = some true := by decide
+
+/-! ### computers plugged into the generator templates (elemwise.h, pairwise.h, elemwise_input.h, pairwise_input.h) -/
+
+/-- **which features a template generator makes** (`do_fit` of the 4 + 16 input selections): element-wise — the given input
+    features (all for the default constructor) of the selected kind, in order; pair-wise — `make_pairwise` of the selection of
+    kind 1 from the first list and of kind 2 from the second; every row's source(s) are input features of the selected
+    kind(s), and the flags start cleared. -/
+theorem custom_fit_spec (st : Storage) (c : Custom) (l1 l2 : List Nat) (g : Gen) (h : fit st (.custom c) l1 l2 = some g) :
+    g.kind = .custom c ∧ g.WF st ∧ g.infos = List.replicate g.mapping.length 0 ∧
+    (c.in2 = none → selectFeatures st c.in1.accepts l1 = some g.mapping) ∧
+    (∀ k2, c.in2 = some k2 → ∃ m1 m2, selectFeatures st c.in1.accepts l1 = some m1 ∧
+      selectFeatures st k2.accepts l2 = some m2 ∧ g.mapping = makePairwise m1 m2) ∧
+    (∀ (i : Nat) (m : FMap), g.mapping[i]? = some m → ∃ f1, st.inputFeature m.orig = some f1 ∧ c.in1.accepts f1 = true ∧
+      ∀ k2, c.in2 = some k2 → ∃ f2, st.inputFeature m.orig2 = some f2 ∧ k2.accepts f2 = true) := by
+  have hwf := fit_wf st _ l1 l2 g h
+  have hinf := fit_infos st _ l1 l2 g h
+  have hkind : g.kind = .custom c := by
+    have h' := h
+    unfold fit at h'
+    simp only [Option.bind_eq_bind, Option.pure_def] at h'
+    cases hc2 : c.in2 with
+    | none =>
+      simp only [hc2] at h'
+      cases h1 : selectFeatures st (kindAccepts (.custom c)) l1 with
+      | none => rw [h1] at h'; simp at h'
+      | some m1 => rw [h1] at h'; simp only [Option.bind_some, Option.some.injEq] at h'; subst h'; rfl
+    | some k2 =>
+      simp only [hc2] at h'
+      cases h1 : selectFeatures st (kindAccepts (.custom c)) l1 with
+      | none => simp [h1] at h'
+      | some m1 =>
+        cases h2 : selectFeatures st k2.accepts l2 with
+        | none => simp [h1, h2] at h'
+        | some m2 => simp [h1, h2] at h'; subst h'; rfl
+  refine ⟨hkind, hwf, hinf, ?_, ?_, ?_⟩
+  · intro hc
+    unfold fit at h
+    simp only [Option.bind_eq_bind, Option.pure_def, hc] at h
+    cases h1 : selectFeatures st (kindAccepts (.custom c)) l1 with
+    | none => rw [h1] at h; simp at h
+    | some m1 =>
+      rw [h1] at h
+      simp only [Option.bind_some, Option.some.injEq] at h
+      subst h
+      exact h1
+  · intro k2 hc
+    unfold fit at h
+    simp only [Option.bind_eq_bind, Option.pure_def, hc] at h
+    cases h1 : selectFeatures st (kindAccepts (.custom c)) l1 with
+    | none => simp [h1] at h
+    | some m1 =>
+      cases h2 : selectFeatures st k2.accepts l2 with
+      | none => simp [h1, h2] at h
+      | some m2 =>
+        simp [h1, h2] at h
+        subst h
+        exact ⟨m1, m2, h1, rfl, rfl⟩
+  · intro i m hm
+    obtain ⟨f1, hf1, hacc, _, _⟩ := hwf.rows i m hm
+    rw [hkind] at hacc
+    exact ⟨f1, hf1, hacc, fun k2 hc => hwf.rows2 c k2 hkind hc i m hm⟩
+
+section
+variable {α : Type} [Scalar α]
+
+/-- **views of a template generator's feature**, for ANY flag state: the per-feature view is the operator's result at every
+    position of the sample list (`customValue`: a function of the stored value(s); missing as soon as one input is missing),
+    as labels / hit rows / scalars / tensors with the markers −1 / NaN; all markers when dropped, read through the
+    permutation when shuffled; and the block `flatten` writes is the documented encoding of that view (one-hot ±1 over
+    `classes − 1` columns with the guard `class_index < colsize`, `2·hit − 1`, identity, row-major; NaN for missing). -/
+theorem custom_select_spec (st : Storage) (hcls : ClassValuesOk st) (g : Gen) (hg : g.WF st) (c : Custom)
+    (hk : g.kind = .custom c) (i : Nat) (m : FMap) (hm : g.mapping[i]? = some m) (ss : List Nat) :
+    g.select (α := α) st i ss = some (customSpecView st c m (g.flagOf i) ss) ∧
+    g.segments (α := α) st i ss = encodeView (customCols c.out) (customSpecView st c m (g.flagOf i) ss) ∧
+    g.colsize i = customCols c.out ∧
+    (∀ s, st.stored (st.inputIndex m.orig) s = none → customValue st c m s = none) ∧
+    (∀ s, c.in2 ≠ none → st.stored (st.inputIndex m.orig2) s = none → customValue st c m s = none) := by
+  have hsel : g.select (α := α) st i ss = some (customSpecView st c m (g.flagOf i) ss) := by
+    rw [select_by_flag st g i m hm ss, hk, specSelect_custom]
+  have hcol : g.colsize i = customCols c.out := by simp [Gen.colsize, hk]
+  refine ⟨hsel, ?_, hcol, ?_, ?_⟩
+  · obtain ⟨v, hv, hseg⟩ := segments_eq_encode (α := α) st hcls g hg i m hm ss
+    rw [hsel] at hv
+    cases hv
+    rw [hseg, hcol]
+  · intro s hs
+    unfold customValue
+    cases c.in2 <;> simp [hs]
+  · intro s hc hs
+    unfold customValue
+    cases hc2 : c.in2 with
+    | none => exact absurd hc2 hc
+    | some k2 =>
+      simp only [hs]
+      cases st.stored (st.inputIndex m.orig) s <;> rfl
+
+end
+
+/-- **descriptors of a template generator's features**: named `<name>(<source>)` resp. `<name>(<source1>,<source2>)`; a
+    single-label feature with 3 labels, a multi-label one with 2, a `float64` scalar, a `float64` tensor of dims `(3,1,1)`;
+    the columns reserved are the columns written, and `dataset_t::select` accepts exactly the overload the generator
+    implements. -/
+theorem custom_descriptor_spec (st : Storage) (g : Gen) (hg : g.WF st) (c : Custom) (hk : g.kind = .custom c)
+    (i : Nat) (m : FMap) (hm : g.mapping[i]? = some m) :
+    ∃ name, g.feature st i = some (customDesc c.out name) ∧
+      featureColumns (customDesc c.out name) = g.colsize i ∧
+      (∀ o : Overload, o.matches (customDesc c.out name) = true ↔ o = c.out) ∧ g.kind.generated = c.out.code := by
+  have hi : i < g.features := (List.getElem?_eq_some_iff.1 hm).1
+  obtain ⟨desc, hd, hcols⟩ := featureColumns_eq_colsize st g hg i hi
+  have hmatch : ∀ name, c.out.matches (customDesc c.out name) = true := by
+    intro name
+    cases c.out <;>
+      simp [customDesc, Overload.matches, Feature.isSclass, Feature.isMclass, Feature.isScalar, Feature.isStruct,
+        Feature.isClass, Feature.dimSize]
+  have hname : ∃ name, desc = customDesc c.out name := by
+    obtain ⟨f, hf, _, _, _⟩ := hg.rows i m hm
+    unfold Gen.feature at hd
+    simp only [hm, Option.bind_eq_bind, Option.bind_some, hk, hf] at hd
+    cases hc2 : c.in2 with
+    | none =>
+      simp only [hc2, Option.pure_def, Option.some.injEq] at hd
+      exact ⟨_, hd.symm⟩
+    | some k2 =>
+      obtain ⟨f2, hf2, _⟩ := hg.rows2 c k2 hk hc2 i m hm
+      simp only [hc2, hf2, Option.bind_some, Option.pure_def, Option.some.injEq] at hd
+      exact ⟨_, hd.symm⟩
+  obtain ⟨name, rfl⟩ := hname
+  refine ⟨name, hd, hcols, ?_, by rw [hk]; rfl⟩
+  intro o
+  constructor
+  · intro h
+    exact matches_unique o c.out _ h (hmatch name)
+  · rintro rfl
+    exact hmatch name
+
 /-! ### range checks -/
 
 section
@@ -404,7 +939,10 @@ end
 
 /-- exact scalars for the examples -/
 instance exampleScalar : Scalar (Option Int) :=
-  ⟨some, none, fun a b => a.bind (fun x => b.map (x * ·)), fun a b => a.bind (fun x => b.map (x - ·))⟩
+  ⟨some, none, fun a b => a.bind (fun x => b.map (x * ·)), fun a b => a.bind (fun x => b.map (x - ·)),
+   fun a b => a.bind (fun x => b.map (x + ·)),
+   fun a b => a.bind (fun x => b.bind (fun y => if y ≠ 0 ∧ x % y = 0 then some (x / y) else none)),
+   fun _ => none, fun _ _ => none⟩
 
 /-- 3 samples; a 3-class label, an int16 scalar, a 2-label multi-label feature, a 1x2x1 tensor, a second scalar -/
 def exFeats : List Feature :=
@@ -467,5 +1005,41 @@ example : (exDataset.bind (fun ds => ((ds.run [.drop 1, .shuffle 0 [1, 2, 0], .u
     [0, 1, 2] 1 .scalar).map (fun v => match v with | .scalar x => x | _ => []))) =
     some [some (-5), some 7, none] := by decide
 
+/-! non-vacuity of the template-generator theorems (`custom_*`): `exStorage` with a scalar → label computer on every scalar
+    feature and a (struct, sclass) → scalar pair-wise computer -/
+
+def exCGens : List (GKind × List Nat × List Nat) :=
+  [(.custom ⟨.scalar, none, .sclass⟩, [], []), (.custom ⟨.struct, some .sclass, .scalar⟩, [], [])]
+
+def exCDataset : Option Dataset :=
+  exStorage.bind (fun st => exCGens.foldlM (fun (ds : Dataset) k => ds.add k.1 k.2.1 k.2.2) ⟨st, []⟩)
+
+-- the hypotheses of `custom_select_spec` / `custom_descriptor_spec` / `flatten_eq_encode_select` / `history_view` hold
+example : ∃ ds, exCDataset = some ds ∧ ds.WF ∧ ds.NonDegenerate ∧ ClassValuesOk ds.st ∧
+    (ds.gens.map (·.kind)) = exCGens.map (·.1) := by
+  obtain ⟨st, hst⟩ : ∃ st, exStorage = some st := Option.isSome_iff_exists.1 (by decide)
+  obtain ⟨ds, hds⟩ : ∃ ds, exCDataset = some ds := Option.isSome_iff_exists.1 (by decide)
+  have h0 := resize_wf 3 exFeats 9 (by decide)
+  obtain ⟨hwf, hcls, _⟩ := sets_wf exWrites _ st h0 (classValuesOk_resize 3 exFeats 9) hst (by decide)
+  have hadd : exCGens.foldlM (fun (ds : Dataset) k => ds.add k.1 k.2.1 k.2.2) ⟨st, []⟩ = some ds := by
+    simpa [exCDataset, hst] using hds
+  obtain ⟨h1, h2, _⟩ := adds_wf exCGens ⟨st, []⟩ ds ⟨hwf, by simp⟩ (by simp) hadd
+  have hnd : (exCDataset.map (fun ds => ds.gens.all Gen.nonDegenerateB)) = some true := by decide
+  have hk : (exCDataset.map (fun ds => ds.gens.map (·.kind))) = some (exCGens.map (·.1)) := by decide
+  rw [hds] at hnd hk
+  simp only [Option.map_some, Option.some.injEq] at hnd hk
+  exact ⟨ds, hds, h1, fun g hg => (nonDegenerateB_iff g).1 (List.all_eq_true.1 hnd g hg), by rw [h2]; exact hcls, hk⟩
+-- `custom_fit_spec` / `custom_descriptor_spec`: labels of the two scalars f1, f4; the pair (f3, f0); 2 + 2 + 1 columns
+example : (exCDataset.map (fun ds => (ds.featureList, ds.colMap))) =
+    some ([⟨"lab(f1)", .sclass, 1, 1, 1, 3⟩, ⟨"lab(f4)", .sclass, 1, 1, 1, 3⟩, ⟨"sum(f3,f0)", .float64, 1, 1, 1, 0⟩],
+          [0, 0, 1, 1, 2]) := by decide
+-- `custom_select_spec`: labels `value mod 3` (−5 ↦ 1, 7 ↦ 1, 3 ↦ 0, 2 ↦ 2 = the class without a column), missing ↦ NaN;
+-- the pair needs both values: only sample 2 has the tensor (4, −4) (summary 4 − 8 = −4) and the label 0: −4 + 2·0
+example : (exCDataset.bind (fun ds => ds.flatten (α := Option Int) [0, 1, 2] none)) =
+    some [[some (-1), some 1, none, none, none],
+          [some (-1), some 1, some 1, some (-1), none],
+          [none, none, some (-1), some (-1), some (-4)]] := by decide
+example : (exCDataset.bind (fun ds => ((ds.run [.shuffle 1 [2, 0, 1], .drop 0]).select (α := Option Int) [0, 1, 2] 1 .sclass).map
+    (fun v => match v with | .sclass x => x | _ => []))) = some [2, -1, 0] := by decide
 
 end NanoVerif.Dataset
